@@ -29,7 +29,9 @@ LamList(sh, side) ==   \* lambda needs a known parent and a diploid gamete
   THEN LamVals ELSE << RZero >>
 ErrList(sh, side) ==
   IF sh.kind = "gamete" THEN << RZero >> ELSE
-  IF (side = 1 /\ sh.Pp > 0 /\ sh.tp > 0) \/ (side = 2 /\ sh.Pq > 0 /\ sh.tq > 0)
+  \* a known parent always has an error rate, also when it contributes a clonal
+  \* (tau = 0) gamete: the model ignores it there and so must the implementation
+  IF (side = 1 /\ sh.Pp > 0) \/ (side = 2 /\ sh.Pq > 0)
   THEN ErrVals ELSE << ROne >>
 (* "full" menu: cross product of the lists; "lite" menu: a fixed list of      *)
 (* parameter tuples exercising every branch (used for the largest shapes in   *)
